@@ -29,6 +29,10 @@ CHECKS["C12"] = dict(cat="model_checking", design="DESIGN.md §4 C12, Appendix A
    text="Analysis.tla models handleType/createType as a stack machine (Enter / Hit / Return, early registration) over a type graph; TLC checks termination-critical invariants (no re-entry of an early-registering type, bounded stack, closure at the end) on every legal program of two named types over {int, N, []N, [2]N, map[string]N} and exports the programs. They and seeded random full-feature packages are analysed by the real code with hook H1 recording enter/hit/return; TraceAnalysis.tla rebuilds the observed stack and memo table from the events, evaluates the invariants at every step (unbounded recursion is decided from the trace, before the runtime dies), follows the model in lock-step (divergence = MODEL-DRIFT, not a violation) and judges the final dump against an independent go/types walk with AnalysisDef.tla: closed, faithful (kind, length, key/element, basic kind, flattened fields), round trip of Type(), consistent links, source order.",
    note="Trusted: TLC; go/types as oracle of kinds and identity; the oracle walk of the harness (enum/union classification by C10/C11's definitions); hook H1 (add-only, build tag verif). Exhaustive for the two-type universe; the rich forms are random.",
    tech="TLA+ model of the recursive walk (Analysis/AnalysisModel.tla) checked by TLC + trace validation of hook events and final dumps from the real analysis (TraceAnalysis.tla, AnalysisDef.tla)")
+CHECKS["C18"] = dict(cat="model_checking", design="DESIGN.md §4 C18",
+   text="Refusal.tla gives every phase of the pipeline exactly two ways out (ok, refuse) and enumerates the input classes the property quantifies over: 19 unsupported or borderline forms x 11 positions (restricted to well-typed combinations) and 17 legal but unusual spellings. Every class is rendered as a well-typed package (checked by the real loader), plus seeded random full-feature packages; the real analysis and all 8 generator entry points run on it in isolated processes (panics classified, stack overflows and hangs survive as 'fatal' / 'timeout'); TraceOutcome.tla requires every recorded phase outcome to be ok or a diagnostic. The model's predicted analysis outcome only feeds MODEL-DRIFT.",
+   note="The specification contributes the input space, the outcome vocabulary and the acceptance; whether a panic is a diagnostic (string / non-runtime error) or a crash (runtime.Error, process death, timeout) is observed on the real process. One representative rendering per class; typescript/api is run on files without routes here (route files: C13/C14).",
+   tech="TLA+ enumeration of input classes and outcome model (Refusal.tla) + verdict-style trace validation (TraceOutcome.tla) of outcome classes observed on the real analysis and generators in isolated processes")
 NOT_APPLICABLE = {}
 ALL = ["C%02d" % i for i in range(1, 21)]
 
